@@ -10,7 +10,9 @@ Section Script.
     pg_cap : N;                          (* number of invocations that may act *)
     pg_rows : list (list (action T));    (* non-empty *)
     pg_rectime : bool;                   (* record ctx.time() in the history *)
-    pg_ndraws : nat }.                   (* ctx.rand() calls per invocation *)
+    pg_ndraws : nat;                     (* ctx.rand() calls per invocation *)
+    pg_stateless : bool }.               (* the process never changes its state (no history, no counter): it
+                                            always acts, choosing the row by the input alone *)
 
   Record hentry := { he_key : list N; he_time : option T; he_draws : list T }.
   Record pstate := { ps_idx : N; ps_hist : list hentry }.
@@ -34,6 +36,11 @@ Section Script.
     let draws := map rand (seq 0 (pg_ndraws p)) in
     let entry := {| he_key := key; he_time := if pg_rectime p then Some time else None; he_draws := draws |} in
     let hist := ps_hist st ++ [entry] in
+    if pg_stateless p then
+      let h := row_hash 0 key in
+      let nrows := N.of_nat (length (pg_rows p)) in
+      (st, nth (N.to_nat (h mod nrows)) (pg_rows p) [])
+    else
     if N.ltb (ps_idx st) (pg_cap p) then
       let h := row_hash (ps_idx st) key in
       let nrows := N.of_nat (length (pg_rows p)) in
@@ -48,7 +55,7 @@ Section Script.
     N.eqb (ps_idx a) (ps_idx b) && list_eqb hentry_eqb (ps_hist a) (ps_hist b).
 
   (* a system's programs, by process name; unknown names get the inert program *)
-  Definition inert : prog := {| pg_cap := 0; pg_rows := [[]]; pg_rectime := false; pg_ndraws := O |}.
+  Definition inert : prog := {| pg_cap := 0; pg_rows := [[]]; pg_rectime := false; pg_ndraws := O; pg_stateless := false |}.
   Definition progs_handler (progs : list (N * prog)) (proc : N) : pstate -> input -> T -> (nat -> T) -> pstate * list (action T) :=
     script_handler (match sget N.compare proc progs with Some p => p | None => inert end).
 End Script.
